@@ -3,9 +3,27 @@
 named in its meta.json; writes seeded/REVERIFY.json (id -> {patch_applies, caught_by, tried})."""
 import glob, json, os, re, subprocess, sys, time
 V = "/verif"
-out_path = os.path.join(V, "seeded", "REVERIFY.json")
+# usage: reverify_seeds.py [--shard k/n] [--merge] [ids...]
+args = sys.argv[1:]
+shard = (0, 1)
+if args and args[0] == "--shard":
+    k, n = args[1].split("/")
+    shard = (int(k), int(n))
+    args = args[2:]
+final_path = os.path.join(V, "seeded", "REVERIFY.json")
+if args and args[0] == "--merge":
+    merged = json.load(open(final_path)) if os.path.exists(final_path) else {}
+    for f in sorted(glob.glob(V + "/seeded/REVERIFY.part*.json")):
+        merged.update(json.load(open(f)))
+        os.unlink(f)
+    json.dump(merged, open(final_path, "w"), indent=1, sort_keys=True)
+    print("merged", len(merged), "entries; not caught:", [k for k, v in merged.items() if not v.get("caught_by")])
+    sys.exit(0)
+out_path = final_path if shard[1] == 1 else os.path.join(V, "seeded", "REVERIFY.part%d.json" % shard[0])
 res = json.load(open(out_path)) if os.path.exists(out_path) else {}
-ids = sys.argv[1:] or sorted(os.path.basename(d) for d in glob.glob(V + "/seeded/*") if os.path.isdir(d))
+done = json.load(open(final_path)) if os.path.exists(final_path) else {}
+ids = args or sorted(os.path.basename(d) for d in glob.glob(V + "/seeded/*") if os.path.isdir(d))
+ids = [x for i, x in enumerate(ids) if i % shard[1] == shard[0] and not (x in done and done[x].get("caught_by") and not args)]
 head = subprocess.check_output(["git", "-C", "/repo", "rev-parse", "--short", "HEAD"], text=True).strip()
 for sid in ids:
     d = os.path.join(V, "seeded", sid)
